@@ -8,12 +8,47 @@ BASE_OFF = ("cd /repo && export GOFLAGS=-mod=mod GOPROXY=off GOSUMDB=off GOTOOLC
             "for m in . ./internal/completion/test; do (cd $m && go test -json -vet=off -count=1 -timeout 25m ./...) ; done")
 
 # id -> (engine, technique, level text, level note, design ref)
+PARSER_NOTE = ("Trusted: the spec->public-API builder, the intended-parse fold / local model named in the technique, Go strconv as conversion oracle; "
+               "argv is rendered only where the documented rules are unambiguous (DESIGN appendix A). Nothing is claimed for shapes the generators do not produce.")
+def P(tech, text, ref, note=PARSER_NOTE):
+    return ("parser-monitors", tech, text, note, ref)
 CHECKS = {
- "C03": ("parser-monitors",
-         "runtime monitor over real Parse executions: token-conservation accounting against the intended-parse fold + subsequence monitor",
-         "Every generated argv is parsed by the real library; a monitor checks that remaining is exactly the unconsumed tokens (order, multiplicity, bytes) and that every consumed token shows up in the option it was written for. Held on the executions listed in evidence; says nothing about argv shapes the generator does not render.",
-         "Trusted: the spec->API builder, the fold over intended-parse items (appendix A), Go strconv as conversion oracle. argv only rendered where the documented rules are unambiguous.",
-         "5 (C03), appendix A"),
+ "C01": P("runtime monitor: strconv/identity conversion oracle over values read back after real Parse executions of hostile value texts",
+          "Each case executes the real Parse on a hostile value text (arbitrary bytes, dashes, '=', whitespace, newlines, boundary/malformed numerals) in both spellings, all scalar kinds and modes, inside random surrounding argv; the monitor compares Value/pointer/Var/Called with Go's decimal conversion. Held on the executions counted in evidence.",
+          "5 (C01)"),
+ "C02": P("runtime monitor: local consumption model (the statement, literally) vs what real Parse stored and left over",
+          "The (kind x (min,max) x attached x preceding elements x follower-token class x position) grid is enumerated completely in quick; thorough adds random multi-occurrence runs. Every case is a real Parse execution checked against the intake model (values in order, conversions, ranges, map split, leftovers interpreted normally).",
+          "5 (C02)"),
+ "C03": P("runtime monitor over real Parse executions: token-conservation accounting against the intended-parse fold + subsequence monitor",
+          "Every generated argv is parsed by the real library; a monitor checks that remaining is exactly the unconsumed tokens (order, multiplicity, bytes) and that every consumed token shows up in the option it was written for. Held on the executions listed in evidence; says nothing about argv shapes the generator does not render.",
+          "5 (C03), appendix A"),
+ "C04": P("runtime monitor: metamorphic comparison of two real executions (A vs A ++ `--` ++ T) with fold anchor",
+          "For every context class of the prefix A (incl. optional-value and multi-value options below max, and the mandatory-value case that takes `--`) and hostile tails, both command lines are executed (Parse+Dispatch) and compared: remaining extended by T verbatim, same option state, same command, same warnings.",
+          "5 (C04)"),
+ "C05": P("runtime monitor: key-set classification oracle over real Parse executions of every prefix of every key",
+          "Exhaustive over prefixes within each generated adversarial name set (root level and command level with inherited keys), all spellings that denote one name in the mode; exact/unique prefixes compared with the full-name execution, ambiguous ones must error listing all candidates and leave the state of the cut command line.",
+          "5 (C05)"),
+ "C06": P("runtime monitor: intended-outcome fold over every key at every level + alias/primary-name metamorphic pair",
+          "Each case executes real Parse on argv using random aliases/abbreviations; the monitor reads Called/CalledAs/Value through every key at every command level plus the definition pointer/Var and compares with the fold, including that every unmentioned option keeps its declared default (deep) and Called false; env bindings and SetCalled included.",
+          "5 (C06)"),
+ "C07": P("runtime monitor: metamorphic equality between a command line and its documented rewriting, both executed by the real parser",
+          "Single-dash tokens of each mode's shape are executed and compared (complete outcome) with the execution of their documented rewriting in the same mode; the long-only rendering is executed in all three modes and must agree. The long side is anchored on the fold.",
+          "5 (C07)"),
+ "C08": P("runtime monitor: per-mode unknown-option rule + deletion metamorphism on real Parse executions",
+          "Unknown option tokens (long, short, bundled, with values) at every position class of random trees incl. wrappers and per-command modes: Fail must error naming the first one, Warn must warn on Writer and keep the token, Pass must keep it; known options around them must end in the same state as on the command line without them.",
+          "5 (C08)"),
+ "C09": P("runtime monitor: metamorphic equality between require-order execution of P ++ s ++ T and execution of P without require-order",
+          "Stop-token kinds x hostile tails x all mode products; both sides are real Parse+Dispatch executions; remaining must be s ++ T verbatim, option state / selected command / warnings must equal those of P alone.",
+          "5 (C09)"),
+ "C10": P("runtime monitor: instrumented CommandFns checked against the intended command path on real Parse+Dispatch executions",
+          "Random trees (depth<=3, wrappers, fn-less nodes, failing fns) and argv with command names in value / post-`--` / post-stop positions; the monitor records who ran, how often, ctx marker, args and the option view handed over.",
+          "5 (C10)"),
+ "C11": P("runtime monitor: required-set and help-bypass rules over CommandFn log, errors.Is and Writer on real Parse+Dispatch executions",
+          "Every subset of the (<=4) required options visible at the target is supplied (name/alias/abbreviation/env) x six help forms; help text compared byte-for-byte with Help() of an identically built program parked on the level.",
+          "5 (C11)"),
+ "C12": P("runtime monitor: CLI > env > default precedence table over values read back after real definitions (env set) and Parse executions",
+          "The kind x env-class x CLI-class x default x pointer/Var grid is enumerated completely in quick, hostile texts added; value/Called/CalledAs asserted except the two cases the statement leaves open (listed in DESIGN N3).",
+          "5 (C12)"),
 }
 
 def main():
